@@ -190,6 +190,16 @@ def main(argv=None):
                 from .selftest import sweep
 
                 extra = sweep(args.prop, args.repo)
+                # automatic refactor twins (every local of one function renamed; modules re-emitted by ast.unparse) and the
+                # mutants / seeded changes re-run with every local renamed: spelling must not matter either way
+                from . import autotwins
+
+                at = autotwins.sweep([args.prop], repo=args.repo)
+                mr = autotwins.mutant_rename_sweep([args.prop], repo=args.repo)
+                sr = autotwins.seeded_rename_sweep([args.prop], repo=args.repo)
+                extra["selftest"]["auto_twins"] = {"variants_run": at["runs"], "alarms": [list(map(str, a[:3])) for a in at["alarms"]],
+                                                   "mutants_renamed_run": mr["runs"], "mutants_renamed_not_reported": [list(map(str, x[:3])) for x in mr["survivors"]],
+                                                   "seeded_renamed_run": sr["runs"], "seeded_renamed_not_reported": [list(map(str, x[:3])) for x in sr["survivors"]]}
             code, out, _, _ = check(args.prop, args.tier, args.repo, replay=args.replay, quiet=args.quiet, extra=extra)
             print("\n".join(out))
             print(f"{args.prop}: exit {code}")
